@@ -349,6 +349,9 @@ def check(P, R):
              why='a route hook that was installed fires; the router answers like one freshly built from the surviving hooks', key_extra='hook-set-one-object')
     # ---- d: pairing in RadiRouter
     check_pairing(P, R)
+    check_fresh_route(P, R, 'C11.d', 'after any edit history the router answers like a freshly built one')
+    check_no_clear_after_merge(P, R, 'C11.d')
+    check_name_after_registration(P, R, 'C11.c')
     # ---- e
     c01.check_idx_pairing(P, R, 'C11.e')
     # ---- f
@@ -390,6 +393,109 @@ def check(P, R):
             and 'HookTypes.SIMPLE' in src(lp)
     R.ob('C11.f', hd, fors[0] if fors else hd.node, ok, text='handler fires hooks in list order with path[:1 + pos]', detail='' if ok else
          'route hooks are not invoked outermost-first with the matched prefix')
+
+
+def check_name_after_registration(P, R, rid):
+    """`_add` binds the route name only when nothing can reject the registration any more: `add_method` refuses a method that is already registered, and a
+    name bound before that call stays bound although the add was rejected"""
+    f = P.func(f'{RR}:RadiRouter._add')
+    g = f.cfg
+    stores = [st for st in walk_shallow(f.node) if isinstance(st, ast.Assign) and any(
+        isinstance(t, ast.Subscript) and dotted(t.value) == 'self.named_routes' for t in st.targets)]
+    rejecting = [c for c in walk_shallow(f.node) if isinstance(c, ast.Call) and call_attr(c) == 'add_method']
+    # (`register = route.set_method if overwrite else route.add_method; register(..)`)
+    for c in walk_shallow(f.node):
+        if isinstance(c, ast.Call) and isinstance(c.func, ast.Name) and f.rd.is_local(c.func.id):
+            ns = g.node_of_stmt(c)
+            if ns and any(isinstance(x, ast.Attribute) and x.attr == 'add_method' for x in f.rd.closure_nodes(c.func, ns[0], follow_mut=False)):
+                rejecting.append(c)
+    for st in stores:
+        sn = g.node_of_stmt(st)[0]
+        late = [c for c in rejecting if g.can_reach(sn, g.node_of_stmt(c)[0])]
+        R.ob(rid, f, st, not late, text=f'`{short(st)}` after the last call that can reject the registration', detail='' if not late else
+             f'`{short(st)}` binds the name before `{short(late[0])}`, which raises when the method is already registered on the route: the rejected add leaves the new name '
+             f'bound - router[name] resolves, and remove(name=...) deletes the route that was there before',
+             why='a rejected registration leaves the router as it was', key_extra='name-before-reject')
+
+
+def check_no_clear_after_merge(P, R, rid):
+    """`_try_merge(node)` may copy the only child - route, names and hooks - into `node`: a payload slot of that very node cleared afterwards (while the name
+    still is that node) wipes the child that survived"""
+    for f in P.all_funcs():
+        if f.module.name != 'ombott.router.radidict' or isinstance(f.node, ast.Lambda):
+            continue
+        g, rd = f.cfg, f.rd
+        merges = [c for c in walk_shallow(f.node) if isinstance(c, ast.Call) and call_attr(c) == '_try_merge' and c.args and isinstance(c.args[0], ast.Name)]
+        for c in merges:
+            v = c.args[0].id
+            cn = g.node_of_stmt(c)[0]
+            for st in walk_shallow(f.node):
+                if not isinstance(st, ast.Assign):
+                    continue
+                tg = [t for t in st.targets if isinstance(t, ast.Subscript) and isinstance(t.value, ast.Name) and t.value.id == v
+                      and c01.slot_name(t) in ('DATA', 'PARAMS', 'HOOKS')]
+                if not tg:
+                    continue
+                sn = g.node_of_stmt(st)[0]
+                redefs = [n for n in g.nodes if n is not cn and any(d.name == v for d in rd.gen.get(n, []))]
+                reach = sn is not cn and any(s_ is sn or g.can_reach(s_, sn, avoid_nodes=redefs) for (s_, lab) in cn.succ if lab != 'exc' and s_ not in redefs)
+                R.ob(rid, f, st, not reach, text=f'`{short(st)}` is not reached after `{short(c)}` on the same node', detail='' if not reach else
+                     f'`{short(st)}` runs after `{short(c)}` while `{v}` still names the merged node: the merge has just copied the only child (its route, its parameter '
+                     f'names) into that node, and the store wipes it - removing a hook from `/a/b` makes the surviving route `/a/bc` answer 404',
+                     why='after any edit history the router answers every path like a freshly built one', key_extra='clear-after-merge')
+
+
+def check_fresh_route(P, R, rid, why):
+    """the Route object that `_add` registers for a rule is built by this call (`Route(rule)`) or is the one the tree already holds
+    (`self._match(..)`): a Route kept in some other table of the router carries its old method table along, and survives remove()"""
+    f = P.func(f'{RR}:RadiRouter._add')
+    g, rd = f.cfg, f.rd
+    sinks = [c for c in walk_shallow(f.node) if isinstance(c, ast.Call) and dotted(c.func) == 'self.radidict.add' and len(c.args) >= 2]
+    R.require(sinks, '_add: self.radidict.add(pattern, route, ..) not found')
+    for c in sinks:
+        a = c.args[1]
+        at = g.node_of_stmt(c)[0]
+        bad = []
+        seen = set()
+        todo = [(a, at)]
+        while todo:
+            e, n = todo.pop()
+            if isinstance(e, ast.Name) and rd.is_local(e.id):
+                for d in rd.at(n, e.id):
+                    if id(d) in seen:
+                        continue
+                    seen.add(id(d))
+                    if d.value is None:
+                        bad.append(d.kind)
+                    else:
+                        # chained assignment `route = self._parsed[rule] = Route(rule)` is one value
+                        todo.append((d.value, d.node))
+                continue
+            if isinstance(e, ast.Call):
+                callee = (dotted(e.func) or '').split('.')[-1]
+                if callee == 'Route' or dotted(e.func) == 'self._match':
+                    continue
+                if call_attr(e) in ('get', 'pop', 'setdefault') and (dotted(e.func.value) or '').startswith('self.'):
+                    bad.append(short(e))
+                    continue
+            if isinstance(e, ast.Subscript) and (dotted(e.value) or '').startswith('self.'):
+                bad.append(short(e))
+                continue
+            if isinstance(e, ast.IfExp):
+                todo += [(e.body, n), (e.orelse, n)]
+                continue
+            if isinstance(e, ast.BoolOp):
+                todo += [(v, n) for v in e.values]
+                continue
+            bad.append(short(e))
+        memo = [b for b in bad if 'self.' in b]
+        if bad and not memo:
+            R.undecided(rid, f, c, f'{short(c)}: origin of the registered Route', f'`{bad[0]}` is neither Route(rule), self._match(..) nor a table of the router')
+            continue
+        R.ob(rid, f, c, not memo, text=f'{short(c)}: the registered Route is built by this call or is the one the tree holds', detail='' if not memo else
+             f'the Route registered for the rule can be `{memo[0]}`, an object remembered from an earlier registration: it brings its method table along, so after '
+             f'remove() and a new registration of the same rule the removed methods and handlers are back (GET answered by the removed handler, Allow lists old and new)',
+             why=why, key_extra='fresh-route')
 
 
 def check_pairing(P, R):
